@@ -318,8 +318,9 @@ namespace Pistache
 
         Entry* pop() override
         {
-            auto ret = Queue<T>::pop();
-
+            // Consume the notification *before* looking at the queue: an entry
+            // pushed after an unsuccessful look would otherwise have its
+            // notification swallowed here, and nobody would wake up for it
             if (isBound())
             {
                 PISTACHE_VERIF_YIELD("pollable.pop:before-drain");
@@ -339,7 +340,7 @@ namespace Pistache
                 }
             }
 
-            return ret;
+            return Queue<T>::pop();
         }
 
         Polling::Tag tag() const
